@@ -197,14 +197,11 @@ func checkH2(c H2Case, o *vf.Obs) error {
 		}
 		seen[entryIndex(r.RequestURI)] = true
 	}
-	failedHs, alerts := 0, 0
+	failedHs := 0
 	for _, h := range hss {
 		if h != target.HsOK {
 			failedHs++
 			o.Class("hs_" + h)
-		}
-		if isAlert(h) {
-			alerts++
 		}
 	}
 	notSeen, mis, goodAfterBad := 0, 0, false
@@ -250,7 +247,6 @@ func checkH2(c H2Case, o *vf.Obs) error {
 		}
 	}
 	hmu.Unlock()
-	_ = alerts
 	o.ClassIf(goodAfterAlert, "h2_good_after_tls_alert")
 	o.ClassIf(c.Instances >= 2, "h2_instances_ge_2")
 	o.ClassIf(c.Shared, "h2_shared_client")
